@@ -18,7 +18,8 @@
    *struct, []struct, [N]struct); tags_wf f pfs - no explicitly empty format tag. *)
 From Coq Require Import List NArith ZArith.
 From Dials Require Import Base.Outcome Base.Runes Reflect.Ty Reflect.Ptrify Stack.Overlay Text.ParseText
-  Sources.Flatten Sources.TimeText Sources.Decoders Sources.DecodersSpec Sources.DecodersProofs Sources.DecodersFacts.
+  Sources.Flatten Sources.TimeText Sources.Decoders Sources.DecodersSpec Sources.DecodersProofs Sources.DecodersFacts
+  Sources.AnonFlat Sources.AnonFlatProofs Sources.AnonFlatFacts.
 Import ListNotations.
 
 (* Each decoder returns exactly what the specification decoder returns: keys
@@ -85,6 +86,39 @@ Theorem set_as_list : forall f d pfs,
   decode_wrapped f d pfs = spec_wrapped f d pfs.
 Proof. exact set_as_list_l. Qed.
 
+(* decoders/yaml with FlattenAnonymous: rewriting the type (hoist the fields of
+   embedded structs one level, recursively inside struct fields), decoding and
+   regrouping the hoisted values returns exactly what the direct reading
+   returns - the fields of an embedded struct / *struct are read from the
+   enclosing mapping under their own dials (or yaml) keys, an embedded *struct
+   none of whose fields is set stays nil.  anon_ok: the fields of an embedded
+   *struct are of nilable types (pointerified positions); uniq_fields: the
+   hoisting brings no two fields of one Go name together. *)
+Theorem yaml_flatten : forall d pfs,
+  dec_ok pfs = true -> tags_wf FYaml pfs = true -> anon_ok pfs = true ->
+  uniq_fields (anonflat_fields (tagcopy_fields dials_tag yaml_tag pfs)) = true ->
+  decode_yaml_flat d pfs = spec_yaml_flat d pfs.
+Proof. exact yaml_flatten_l. Qed.
+
+(* The two guards are not vacuous: a hoisted field meeting a field of the same
+   Go name is an error of the rewrite (in Go the outer field would shadow) ... *)
+Theorem yaml_flatten_name_clash_refuted :
+  let pfs := ptrify_fields clash_fs in
+  uniq_fields pfs = true /\
+  uniq_fields (anonflat_fields (tagcopy_fields dials_tag yaml_tag pfs)) = false /\
+  decode_yaml_flat clash_doc pfs = Err e_dup_names /\
+  spec_yaml_flat clash_doc pfs = Ok [VPtr (VInt 1); VNil].
+Proof. exact flat_name_clash_refuted_l. Qed.
+
+(* ... and inside a slice element an absent plain struct embedding a *struct
+   with a non-nilable field gets that pointer allocated. *)
+Theorem yaml_flatten_alloc_refuted :
+  let pfs := ptrify_fields alloc_fs in
+  dec_ok pfs = true /\ anon_ok pfs = false /\
+  decode_yaml_flat alloc_doc pfs = Ok [VList [VStruct [VStruct [VPtr (VStruct [VInt 0])]; VInt 1]]] /\
+  spec_yaml_flat alloc_doc pfs = Ok [VList [VStruct [VStruct [VNil]; VInt 1]]].
+Proof. exact flat_alloc_refuted_l. Qed.
+
 (* An ill-typed, out-of-range or malformed value anywhere under a present key
    makes the whole decode fail: never a partially filled value. *)
 Theorem error_is_total : forall f kvs pfs n tags t d,
@@ -100,6 +134,9 @@ Print Assumptions decoders_agree_refuted.
 Print Assumptions absent_is_unset.
 Print Assumptions duration_forms.
 Print Assumptions time_forms.
+Print Assumptions yaml_flatten.
+Print Assumptions yaml_flatten_name_clash_refuted.
+Print Assumptions yaml_flatten_alloc_refuted.
 Print Assumptions time_string_refuted.
 Print Assumptions error_is_total.
 Print Assumptions set_as_list.
